@@ -170,7 +170,7 @@ func loadSeeds() {
 			xcbor.Tg(2, xcbor.B([]byte{1, 0, 0, 0, 0, 0, 0, 0, 0})),
 			xcbor.Tg(3, xcbor.B([]byte{1, 0, 0, 0, 0, 0, 0, 0, 0})),
 			xcbor.Tg(102, xcbor.A(xcbor.U(7), xcbor.A(xcbor.U(1)))),
-			xcbor.A(xcbor.U(0), xcbor.B(make([]byte, 28))),                                        // native script pubkey
+			xcbor.A(xcbor.U(0), xcbor.B(make([]byte, 28))),                                                                  // native script pubkey
 			xcbor.A(xcbor.U(1), xcbor.A(xcbor.A(xcbor.U(0), xcbor.B(make([]byte, 28))), xcbor.A(xcbor.U(4), xcbor.U(100)))), // all[...]
 			xcbor.A(xcbor.Bool(true), xcbor.Null(), &xcbor.Node{Kind: xcbor.Simple, Arg: 0x3ff0000000000000, Width: 8}),
 		} {
@@ -387,6 +387,16 @@ func mutate(rt *rapid.T, data []byte, maxLen int) ([]byte, mutation) {
 		n := pick(func(n *xcbor.Node) bool { return n.Kind == xcbor.Uint || n.Kind == xcbor.Nint })
 		if n == nil {
 			break
+		}
+		if rapid.IntRange(0, 2).Draw(rt, "plainHuge") == 0 {
+			// a plain integer with a huge value: counts, sizes, indexes, k-of-n, periods
+			// carried as integers are lengths claimed inside the input too
+			v := rapid.SampledFrom(inflatedCounts).Draw(rt, "hugeInt")
+			repl := xcbor.U(v)
+			if n.Kind == xcbor.Nint {
+				repl = xcbor.NegArg(v)
+			}
+			return splice(n, repl.Encode()), mutation{"hugeint", fmt.Sprintf("int at %d -> %d", n.Start, v)}
 		}
 		l := rapid.SampledFrom([]int{0, 1, 8, 9, 16, 33, 64, 256, 1024, 4096, 20000}).Draw(rt, "bigLen")
 		if l > maxLen/2 {
